@@ -535,3 +535,79 @@ Proof.
   - rewrite complete_nb_len by assumption. intros v Hv. exists n. split; [|lia].
     rewrite complete_nb_nth by lia. apply filter_In. split; [apply In_vrange; lia|lia].
 Qed.
+
+(* ====================================================================== *)
+(* Part F: T1 for the variants with all transitivity axioms                *)
+(* ====================================================================== *)
+(* the models are exactly the strict partial (total when asked) orders in which every vertex
+   -- but the last one when planted -- has a neighbour before it *)
+Definition order_axioms (nb : list (list Z)) (total plant : bool) (R : Z -> Z -> bool) : Prop :=
+  (forall v, 1 <= v <= len nb -> (v =? len nb) && plant = false -> exists u, In u (nthZ nb v) /\ R u v = true) /\
+  trans_on (len nb) R /\ antisym_on (len nb) R /\
+  (total = true -> forall u v, 1 <= u <= len nb -> 1 <= v <= len nb -> u <> v -> R u v = true \/ R v u = true).
+
+Definition full_trans (knuth : Z) : Prop := knuth <> 2 /\ knuth <> 3.
+Lemma full_trans_keep knuth v1 v2 v3 : full_trans knuth -> knuth_keep knuth v1 v2 v3 = true.
+Proof. intros [H2 H3]. unfold knuth_keep. destruct (Z.eqb_spec knuth 2); [lia|]. destruct (Z.eqb_spec knuth 3); [lia|reflexivity]. Qed.
+
+Theorem gop_plain_T1 nb total plant knuth a : graph_ok nb = true -> full_trans knuth ->
+  (cnf_sat a (gop_cnf nb total false plant knuth) = true <-> order_axioms nb total plant (Rel a false (len nb))).
+Proof.
+  intros Hg FT. split.
+  - intros Hs. split; [|split; [|split]].
+    + intros v Hv E. eapply sat_nonmin; eauto.
+    + intros v1 v2 v3 H1 H2 H3 N12 N23 N13. unfold inr in *.
+      apply (sat_trans_plain _ _ _ _ _ Hs v1 v2 v3); try assumption. now apply full_trans_keep.
+    + eapply sat_antisym; eauto.
+    + intros Et. subst total. rewrite cnf_sat_true_iff in Hs.
+      assert (T : forall x y, 1 <= x -> x < y -> y <= len nb -> Rel a false (len nb) x y = true \/ Rel a false (len nb) y x = true).
+      { intros x y H1 H2 H3.
+        assert (Hc : clause_sat a [xlit false (len nb) x y; xlit false (len nb) y x] = true).
+        { apply Hs, gop_axioms_exact. right. right. right. right. repeat split. exists x, y. repeat split; lia. }
+        unfold Rel. cbn [clause_sat existsb] in Hc. rewrite orb_false_r in Hc. now apply orb_true_iff in Hc. }
+      intros u v Hu Hv Hne. destruct (Z.lt_trichotomy u v) as [L|[L|L]]; [apply T; lia|lia|].
+      destruct (T v u) as [H|H]; try lia; tauto.
+  - intros [NM [TR [AS TO]]]. apply cnf_sat_true_iff. intros c Hc.
+    apply gop_axioms_exact in Hc as [[v [Hv [E Hc]]]|[[Es _]|[[_ [v1 [v2 [v3 [H1 [H2 [H3 [N1 [N2 [N3 [K Hc]]]]]]]]]]]|
+      [[_ [v1 [v2 [H1 [H2 [H3 Hc]]]]]]|[_ [Et [v1 [v2 [H1 [H2 [H3 Hc]]]]]]]]]]]; [|discriminate| | |].
+    + subst c. destruct (NM v Hv E) as [u [Hu HR]]. apply clause_sat_true_iff.
+      exists (xlit false (len nb) u v). split; [apply in_map_iff; exists u; split; [reflexivity|assumption]|exact HR].
+    + subst c. cbn [clause_sat existsb]. rewrite !lit_true_opp by (apply xlit_nonzero; lia).
+      fold (Rel a false (len nb) v1 v2). fold (Rel a false (len nb) v2 v3). fold (Rel a false (len nb) v1 v3).
+      destruct (Rel a false (len nb) v1 v2) eqn:R12; [|reflexivity]. destruct (Rel a false (len nb) v2 v3) eqn:R23; [|reflexivity].
+      assert (R13 : Rel a false (len nb) v1 v3 = true) by (apply (TR v1 v2 v3); unfold inr; try lia; assumption).
+      rewrite R13. reflexivity.
+    + subst c. cbn [clause_sat existsb]. rewrite !lit_true_opp by (apply xlit_nonzero; lia).
+      fold (Rel a false (len nb) v1 v2). fold (Rel a false (len nb) v2 v1).
+      destruct (Rel a false (len nb) v1 v2) eqn:R12; [|reflexivity].
+      assert (R21 : Rel a false (len nb) v2 v1 = false) by (apply (AS v1 v2); unfold inr; try lia; assumption).
+      rewrite R21. reflexivity.
+    + subst c. cbn [clause_sat existsb]. fold (Rel a false (len nb) v1 v2). fold (Rel a false (len nb) v2 v1).
+      destruct (TO Et v1 v2) as [H|H]; try lia; rewrite H; [reflexivity|apply orb_true_iff; right; reflexivity].
+Qed.
+
+Theorem gop_smart_T1 nb total plant knuth a : graph_ok nb = true ->
+  (cnf_sat a (gop_cnf nb total true plant knuth) = true <-> order_axioms nb true plant (Rel a true (len nb))).
+Proof.
+  intros Hg. pose proof (fun u v Hu Hv Hne => Rel_smart_flip a (len nb) u v Hu Hv Hne) as FL. split.
+  - intros Hs. split; [|split; [|split]].
+    + intros v Hv E. eapply sat_nonmin; eauto.
+    + eapply sat_trans_smart; eauto.
+    + eapply sat_antisym; eauto.
+    + intros _ u v Hu Hv Hne. rewrite (FL u v) by assumption. destruct (Rel a true (len nb) u v); [now left|now right].
+  - intros [NM [TR [AS TO]]]. apply cnf_sat_true_iff. intros c Hc.
+    apply gop_axioms_exact in Hc as [[v [Hv [E Hc]]]|[[_ [v1 [v2 [v3 [H1 [H2 [H3 [H4 Hc]]]]]]]]|[[Es _]|[[Es _]|[Es _]]]]];
+      try discriminate.
+    + subst c. destruct (NM v Hv E) as [u [Hu HR]]. apply clause_sat_true_iff.
+      exists (xlit true (len nb) u v). split; [apply in_map_iff; exists u; split; [reflexivity|assumption]|exact HR].
+    + destruct Hc as [Hc|Hc]; subst c; cbn [clause_sat existsb]; rewrite !lit_true_opp by (apply xlit_nonzero; lia);
+        fold (Rel a true (len nb) v1 v2); fold (Rel a true (len nb) v2 v3); fold (Rel a true (len nb) v1 v3).
+      * destruct (Rel a true (len nb) v1 v2) eqn:R12; [reflexivity|]. destruct (Rel a true (len nb) v2 v3) eqn:R23; [reflexivity|].
+        assert (R21 : Rel a true (len nb) v2 v1 = true) by (rewrite FL, R12 by lia; reflexivity).
+        assert (R32 : Rel a true (len nb) v3 v2 = true) by (rewrite FL, R23 by lia; reflexivity).
+        assert (R31 : Rel a true (len nb) v3 v1 = true) by (apply (TR v3 v2 v1); unfold inr; try lia; assumption).
+        rewrite (FL v1 v3) in R31 by lia. destruct (Rel a true (len nb) v1 v3); [discriminate|reflexivity].
+      * destruct (Rel a true (len nb) v1 v2) eqn:R12; [|reflexivity]. destruct (Rel a true (len nb) v2 v3) eqn:R23; [|reflexivity].
+        assert (R13 : Rel a true (len nb) v1 v3 = true) by (apply (TR v1 v2 v3); unfold inr; try lia; assumption).
+        rewrite R13. reflexivity.
+Qed.
